@@ -16,12 +16,82 @@ fn up(s: &str) -> String {
     code_name(oscode_of(s))
 }
 
+/// 'timed' population: time-sensitive mappings (tap-hold variants) with the 'recorded' delay
+/// behaviour. Every hold duration is at least 30 ms away from the tap-hold threshold, so the
+/// outcome of typing is unambiguous, and the replay (which reproduces the typed gaps) must give the
+/// same output as typing the recorded events again with the same gaps. The record key may still be
+/// held when the first recorded key is pressed, after a pause.
+fn gen_timed(seed: u64, r: &mut Rng) -> Case {
+    let h = *r.pick(&[100u64, 150]);
+    let v1 = *r.pick(&["tap-hold", "tap-hold-release", "tap-hold-press"]);
+    let v2 = *r.pick(&["tap-hold", "tap-hold-release", "tap-hold-press"]);
+    let mut case = Case { prop: "C19".into(), seed, ..Default::default() };
+    case.cfg = format!(
+        "(defcfg dynamic-macro-replay-delay-behaviour recorded)\n(defsrc a b c d r q s t p o)\n(deflayer l0 ({v1} 0 {h} a 1) b ({v2} 0 {h} c 2) d (dynamic-macro-record 1) (dynamic-macro-record 2) dynamic-macro-record-stop (dynamic-macro-record-stop-truncate 0) (dynamic-macro-play 1) (dynamic-macro-play 2))\n"
+    );
+    let code = |n: &str| oscode_of(n);
+    let mut ops: Vec<Op> = vec![Op::Press(code("r"))];
+    // pause between starting the recording and the first typed key
+    ops.push(Op::Gap(*r.pick(&[5u32, 20, 80, 150, 300])));
+    let r_release_after_first = r.chance(500);
+    if !r_release_after_first {
+        ops.push(Op::Release(code("r")));
+        ops.push(Op::Gap(r.range(8, 200) as u32));
+    }
+    let n = r.range(1, 5);
+    let mut r_up = !r_release_after_first;
+    for _ in 0..n {
+        let k = code(*r.pick(&["a", "a", "c", "b"]));
+        let dur = if r.chance(500) { r.range(8, h - 30) } else { r.range(h + 30, h + 90) };
+        ops.push(Op::Press(k));
+        if !r_up {
+            // the record key comes up while the first recorded key is down
+            let at = r.range(2, dur.min(40) - 2);
+            ops.push(Op::Gap(at as u32));
+            ops.push(Op::Release(code("r")));
+            ops.push(Op::Gap((dur - at) as u32));
+            r_up = true;
+        } else if k != code("b") && r.chance(250) && dur > 12 {
+            // another key tapped while this one is down
+            let at = r.range(2, dur - 8);
+            ops.push(Op::Gap(at as u32));
+            ops.push(Op::Press(code("d")));
+            ops.push(Op::Gap(3));
+            ops.push(Op::Release(code("d")));
+            ops.push(Op::Gap((dur - at - 3) as u32));
+        } else {
+            ops.push(Op::Gap(dur as u32));
+        }
+        ops.push(Op::Release(k));
+        ops.push(Op::Gap(r.range(10, 60) as u32));
+    }
+    ops.push(Op::Press(code("s")));
+    ops.push(Op::Gap(4));
+    ops.push(Op::Release(code("s")));
+    ops.push(Op::Gap(400));
+    case.set("replay_op_idx", ops.len());
+    ops.push(Op::Press(code("p")));
+    ops.push(Op::Gap(4));
+    ops.push(Op::Release(code("p")));
+    ops.push(Op::Gap(3000));
+    case.ops = ops;
+    case.set("pop", "timed");
+    case.set("behaviour", "recorded");
+    case.set("stop", "s");
+    case.set("trunc", 0);
+    case.set("maxp", 128);
+    case.set("min_cfg", 0);
+    case.set("min_ops", 0);
+    case.set("min_gaps", 0);
+    case
+}
+
 impl Prop for C19 {
     fn id(&self) -> &'static str {
         "C19"
     }
     fn rule_text(&self) -> String {
-        "case = record (macro 1 / 2), typed history (keys held across the start and stop boundaries), stop / stop-truncate n / re-record / record-other, play, nested play of the other macro, play-while-recording (self reference), exceeding dynamic-macro-max-presses; both replay-delay behaviours; populations: 'identity' (every key mapped to itself: what is fed during replay = the typed list minus stop key and truncated tail, then releases of the keys still down at stop), 'remap' (differential: the replay's output key sequence equals the output of a fresh instance into which the same events are typed), 'selfplay', 'limit'. non-trivial = the replay produced output; distinct = config x history hash.".into()
+        "case = record (macro 1 / 2), typed history (keys held across the start and stop boundaries), stop / stop-truncate n / re-record / record-other, play, nested play of the other macro, play-while-recording (self reference), exceeding dynamic-macro-max-presses; both replay-delay behaviours; populations: 'timed' (tap-hold variants under the 'recorded' delay behaviour, hold durations >= 30 ms away from the threshold, the record key possibly still held when the first recorded key goes down after a pause: replay output = output of typing the recorded events again with the same gaps), 'identity' (every key mapped to itself: what is fed during replay = the typed list minus stop key and truncated tail, then releases of the keys still down at stop), 'remap' (differential: the replay's output key sequence equals the output of a fresh instance into which the same events are typed), 'selfplay', 'limit'. non-trivial = the replay produced output; distinct = config x history hash.".into()
     }
     fn runs(&self, tier: Tier) -> u64 {
         match tier {
@@ -41,6 +111,9 @@ impl Prop for C19 {
         } else {
             "a b c d"
         };
+        if r.chance(160) {
+            return gen_timed(seed, &mut r);
+        }
         let mut case = Case { prop: "C19".into(), seed, ..Default::default() };
         case.cfg = format!(
             "(defcfg dynamic-macro-max-presses {maxp} dynamic-macro-replay-delay-behaviour {behaviour})\n(defsrc a b c d r q s t p o)\n(deflayer l0 {layer} (dynamic-macro-record 1) (dynamic-macro-record 2) dynamic-macro-record-stop (dynamic-macro-record-stop-truncate {trunc}) (dynamic-macro-play 1) (dynamic-macro-play 2))\n(deflayer l1 1 2 _ 3 _ _ _ _ _ _)\n"
@@ -350,6 +423,46 @@ impl Prop for C19 {
                     vec![],
                 );
             }
+        }
+        if pop == "timed" && !o.failed() {
+            // what was typed between the record key press and the stop key press, with its gaps
+            let (rk, sk) = (code("r"), code("s"));
+            let start = case.ops.iter().position(|op| *op == Op::Press(rk)).map(|i| i + 1).unwrap_or(0);
+            let end = case.ops.iter().position(|op| *op == Op::Press(sk)).unwrap_or(start);
+            let mut ops2: Vec<Op> = vec![];
+            let mut started = false;
+            for op in &case.ops[start..end.max(start)] {
+                match op {
+                    Op::Press(k) | Op::Release(k) if typed_codes.contains(k) => {
+                        started = true;
+                        ops2.push(op.clone());
+                    }
+                    Op::Gap(_) if started => ops2.push(op.clone()),
+                    _ => {}
+                }
+            }
+            ops2.push(Op::Gap(1000));
+            drop(st);
+            let mut st2 = match Stepper::new_filtered(&case.cfg, &case.files, Mode::Ticking) {
+                Ok(s) => s,
+                Err(_) => return RunOut::skip("parser-rejected"),
+            };
+            st2.run_ops(&ops2);
+            let proj = |v: &[OutEv]| v.iter().filter(|e| matches!(e.kind, OutKind::Press | OutKind::Release)).map(|e| (e.kind == OutKind::Press, e.key.clone())).collect::<Vec<_>>();
+            let want = proj(&st2.trace.outs);
+            let got = proj(&replay_outs);
+            if want != got {
+                let f = |v: &[(bool, String)]| v.iter().map(|(p, k)| format!("{}{k}", if *p { "↓" } else { "↑" })).collect::<Vec<_>>().join(" ");
+                o.set_fail(
+                    "C19:timed-replay-differs-from-typing-it-again",
+                    format!("recorded delays: replay gives [{}], typing the recorded events again with the same gaps gives [{}] (events: {})", f(&got), f(&want), ops_short(&ops2)),
+                    vec![],
+                );
+            }
+            if want_sample {
+                o.sample = Some(json!({"seed": format!("{:#x}", case.seed), "cfg": case.cfg, "ops": ops_short(&case.ops), "pop": pop}));
+            }
+            return o;
         }
         if pop == "remap" && !o.failed() {
             // differential: type the recorded events into a fresh instance
